@@ -9,7 +9,7 @@ LEVEL = "fault_enumeration"
 ENGINE = "E2 detgrid"
 TECHNIQUE = ("Hypothesis-generated grids (1-12 servers; write calls that fail, fail on the n-th call, lose the connection, are applied but answered with a connection "
              "error, servers that disconnect after j calls, late or down servers) x SDMF/MDMF create/overwrite/update x delivery schedules; server-side ground truth of "
-             "acknowledged share numbers collected at the wire; follow-up read from a fresh client")
+             "acknowledged share numbers collected at the wire; follow-up read from a fresh client; stale-survey step (another write-cap holder publishes between the writer's survey and its publish) judged by a wire-level clobber monitor")
 RULE = ("each case: format, k<=3, N<=6, 1-12 servers with a drawn behaviour each; step 1 creates the file under fault plan A (or on a healthy grid), step 2 overwrites or "
         "updates it in place under fault plan B; for each publish the harness records, at the server side, the share numbers whose test-and-set write was executed, "
         "accepted and answered successfully. Oracle: publish success => those acknowledged share numbers number >= k and (after reconnecting everything) a fresh client that surveys "
